@@ -16,6 +16,12 @@ EXTENDS Naturals, Sequences, FiniteSets, FiniteSetsExt
 RECURSIVE SetAsSeq(_)
 SetAsSeq(S) == IF S = {} THEN <<>> ELSE LET x == CHOOSE y \in S : TRUE IN <<x>> \o SetAsSeq(S \ {x})
 
+\* k-element subsets for k <= 3 (FiniteSetsExt!kSubset's Java override rejects base sets with more than 62 elements)
+KSub(k, S) == CASE k = 0 -> {{}}
+                [] k = 1 -> { {x} : x \in S }
+                [] k = 2 -> { {x, y} : x \in S, y \in S } \ { {x} : x \in S }
+                [] k = 3 -> { T \in { {x, y, z} : x \in S, y \in S, z \in S } : Cardinality(T) = 3 }
+
 SeqsUpTo(S, k) == UNION { [1..n -> S] : n \in 0..k }
 
 \* all ways to split a total of at most m (and at least 1) rules over Len(ntseq) nonterminals
@@ -27,7 +33,7 @@ RECURSIVE RuleSeqs(_, _, _, _)
 \* the set of rule sequences in which nonterminal ntseq[i] has exactly split[i] rules, for i >= from
 RuleSeqs(ntseq, rhsU, split, from) ==
   IF from > Len(ntseq) THEN {<<>>}
-  ELSE LET mine == { [k \in 1..split[from] |-> [lhs |-> ntseq[from], rhs |-> SetAsSeq(R)[k]]] : R \in kSubset(split[from], rhsU) }
+  ELSE LET mine == { [k \in 1..split[from] |-> [lhs |-> ntseq[from], rhs |-> SetAsSeq(R)[k]]] : R \in KSub(split[from], rhsU) }
            rest == RuleSeqs(ntseq, rhsU, split, from + 1)
        IN { a \o b : a \in mine, b \in rest }
 
